@@ -6,6 +6,7 @@ import (
 	"net"
 	"net/http"
 	"strconv"
+	"sync/atomic"
 	"time"
 
 	"github.com/vicanso/pike/config"
@@ -24,6 +25,7 @@ type usCase struct {
 	Ticker  bool   `json:"ticker"`
 	Down0   []int  `json:"down0"`
 	Abort   bool   `json:"abort"`
+	Hang    bool   `json:"hang"`
 }
 
 // a backend that can be taken down (listener and connections closed) and brought back on the same port
@@ -33,6 +35,21 @@ type backend struct {
 	srv  *http.Server
 	ln   net.Listener
 	up   bool
+	// hung: the backend accepts connections and requests but answers none until it is released
+	hung    atomic.Bool
+	release chan struct{}
+}
+
+func (b *backend) hang() {
+	b.release = make(chan struct{})
+	b.hung.Store(true)
+	b.up = false
+}
+
+func (b *backend) unhang() {
+	b.hung.Store(false)
+	close(b.release)
+	b.up = true
 }
 
 func (b *backend) start() error {
@@ -41,6 +58,13 @@ func (b *backend) start() error {
 		return err
 	}
 	b.srv = &http.Server{Handler: http.HandlerFunc(func(rw http.ResponseWriter, req *http.Request) {
+		if b.hung.Load() {
+			select {
+			case <-b.release:
+			case <-req.Context().Done():
+				return
+			}
+		}
 		rw.Header().Set("X-Backend", strconv.Itoa(b.idx))
 		rw.Header().Set("Cache-Control", "no-cache")
 		rw.WriteHeader(200)
@@ -87,6 +111,9 @@ func Upstream(w *world.World, raws []json.RawMessage) ([]interface{}, error) {
 	}
 	defer func() {
 		for _, b := range bs {
+			if b.hung.Load() {
+				b.unhang()
+			}
 			if b.up {
 				b.stop()
 			}
@@ -107,9 +134,10 @@ func Upstream(w *world.World, raws []json.RawMessage) ([]interface{}, error) {
 		}
 		for k := 0; k < 6; k++ {
 			reqNo++
+			t0 := time.Now()
 			r := w.DoCase("", "us", "POST", "h", fmt.Sprintf("/us/%d", reqNo), nil, nil)
 			srv, _ := strconv.Atoi(r.Header.Get("X-Backend"))
-			res = append(res, map[string]interface{}{"server": srv, "status": r.Status})
+			res = append(res, map[string]interface{}{"server": srv, "status": r.Status, "ms": int(time.Since(t0) / time.Millisecond)})
 		}
 		w.TakeTrace()
 		return res
@@ -121,6 +149,9 @@ func Upstream(w *world.World, raws []json.RawMessage) ([]interface{}, error) {
 			return nil, err
 		}
 		for _, b := range bs {
+			if b.hung.Load() {
+				b.unhang()
+			}
 			if !b.up {
 				if err := b.start(); err != nil {
 					return nil, err
@@ -132,6 +163,9 @@ func Upstream(w *world.World, raws []json.RawMessage) ([]interface{}, error) {
 			bs[d-1].stop()
 		}
 		uc := config.UpstreamConfig{Name: "us", Policy: c.Policy}
+		if c.Hang {
+			uc.HealthCheck = "/ping"
+		}
 		for i := 0; i < c.N; i++ {
 			uc.Servers = append(uc.Servers, config.UpstreamServerConfig{Addr: "http://" + bs[i].addr, Backup: c.Backup[i]})
 		}
@@ -149,7 +183,13 @@ func Upstream(w *world.World, raws []json.RawMessage) ([]interface{}, error) {
 		bursts := [][]map[string]interface{}{burst()}
 		for _, t := range c.Toggles {
 			b := bs[t-1]
-			if b.up {
+			if c.Hang {
+				if b.up {
+					b.hang()
+				} else {
+					b.unhang()
+				}
+			} else if b.up {
 				b.stop()
 			} else if err := b.start(); err != nil {
 				return nil, err
